@@ -218,6 +218,57 @@ func runC17(c *eng.Ctx) {
 		}
 	}
 
+	// no uninterruptible wait between two context tests: a time.Sleep (or a bare receive from a timer) inside the
+	// worker loop or waitForTask delays the reaction to a shutdown by the whole wait and lets one more task start
+	if start != nil && w != nil && ctxFld != nil {
+		check := func(f *eng.Func, body ast.Node, label string) {
+			info := f.Pkg.TypesInfo
+			bad := ""
+			var pos token.Pos = f.Decl.Pos()
+			var stack []ast.Node
+			ast.Inspect(body, func(n ast.Node) bool {
+				if n == nil {
+					stack = stack[:len(stack)-1]
+					return true
+				}
+				stack = append(stack, n)
+				switch t := n.(type) {
+				case *ast.CallExpr:
+					if eng.IsPkgFunc(eng.CalleeOf(info, t), "time", "Sleep") {
+						bad = "time.Sleep"
+						pos = t.Pos()
+					}
+				case *ast.UnaryExpr:
+					if t.Op != token.ARROW {
+						break
+					}
+					// allowed: a receive that is the communication of a select which also has a Done clause
+					inSelectWithDone := false
+					for i := len(stack) - 1; i >= 0; i-- {
+						if sel, isSel := stack[i].(*ast.SelectStmt); isSel {
+							for _, cl := range sel.Body.List {
+								if cc, isCC := cl.(*ast.CommClause); isCC && cc.Comm != nil && isDoneRecv(info, cc.Comm, ctxFld) {
+									inSelectWithDone = true
+								}
+							}
+							break
+						}
+					}
+					if !inSelectWithDone {
+						bad = "a blocking receive outside a select with a Done clause"
+						pos = t.Pos()
+					}
+				}
+				return true
+			})
+			r1.Check(bad == "", f.Key+label+" no-uninterruptible-wait", pos, "every wait is a select that also watches the context", "the worker can block in "+bad+" without watching its context: a shutdown requested during that wait goes unnoticed and one more task is started after it")
+		}
+		check(w, w.Decl.Body, "")
+		if gl := goLits(start); len(gl) == 1 {
+			check(start, gl[0].Lit.Body, "$worker")
+		}
+	}
+
 	// ---- R2
 	r2 := c.Rule("C17.R2", "D:provenance", "queue contexts derive from the set's context; TaskQueueSet.Stop cancels the set's context; TaskQueue.WithContext derives from its argument", 4)
 	if f := r2.NeedFunc(pkgQueue + ".(*TaskQueueSet).NewNamedQueue"); f != nil {
